@@ -47,7 +47,8 @@ TRANSPARENT = {"Some", "Ok", "Err", "new", "from", "into", "then", "then_some", 
                "to_string", "to_owned", "iter", "into_iter", "collect", "trim", "get", "take", "flatten",
                "filter_map", "find", "first", "last", "next", "as_bytes", "borrow", "deref", "to_vec", "rev",
                "chain", "zip", "enumerate", "map_err", "is_some", "is_none", "is_empty", "eq", "ne", "starts_with"}
-PRESENCE_END = {"is_some", "is_none", "is_empty"}
+# observations that reveal no content: presence / emptiness / size / membership of a NAME
+PRESENCE_END = {"is_some", "is_none", "is_empty", "len", "contains_key", "capacity", "count"}
 VIEW = {"as_deref", "as_ref", "as_str", "trim", "clone", "as_mut", "iter"}
 SECRET_ENV_RE = re.compile(r"(^|_)KEY($|_)|TOKEN|SECRET|PASSWORD|CREDENTIAL", re.I)
 EXTRA_SEED_RE = re.compile(r"(secret|password|authorization|bearer)", re.I)
